@@ -1663,6 +1663,8 @@ class TypedDictValue(GenericValue):
                         )
                     bounds_maps.append(can_assign)
             for key, value in other.val.items():
+                if not isinstance(key, str):
+                    return CanAssignError(f"Key {key!r} is not a string")
                 if key not in self.items:
                     if self.extra_keys is NO_RETURN_VALUE:
                         return CanAssignError(
